@@ -1,4 +1,5 @@
 import GixModel.Lemmas.C56
+import GixModel.Lemmas.C56Toy
 /-
 C56 — Streaming compression and hashing do not depend on chunking.  PROPERTY THEOREMS ONLY.
 
@@ -79,6 +80,22 @@ theorem deflate_then_inflate_is_identity {C : Compressor} {D : Decompressor} {Is
   intro rd hrd hne dstLen hlen
   obtain ⟨r, h3, h4⟩ := inflateRead_valid KD z chunks.flatten h2 rd hrd hne dstLen
   exact ⟨r, h3, by rw [h4, List.take_of_length_le hlen]⟩
+
+/-- Non-vacuity of the two contracts: there is a codec (Lemmas/C56Toy.lean: every content byte `b` as the
+pair `1 b`, terminator `0`) whose compressor satisfies `CompressorOk` and whose decompressor satisfies
+`DecompressorOk` for the SAME stream relation, which relates non-empty contents, too. -/
+theorem contracts_satisfiable :
+    ∃ (C : Compressor) (D : Decompressor) (IsStream : Bytes → Bytes → Prop),
+      Nonempty (CompressorOk C IsStream) ∧ Nonempty (DecompressorOk D IsStream) ∧
+      ∃ z d, IsStream z d ∧ d ≠ [] :=
+  ⟨Toy.compressor, Toy.decompressor, Toy.IsToy, ⟨Toy.compressorOk⟩, ⟨Toy.decompressorOk⟩,
+    Toy.enc [7], [7], rfl, by simp⟩
+
+-- the end-to-end theorem instantiated with that codec (all its hypotheses are met)
+example (chunks : List Bytes) :=
+  deflate_then_inflate_is_identity Toy.compressorOk Toy.decompressorOk
+    (fun w c => Toy.compressorOk.rank w.comp c.length .none + 1) (fun w => Toy.compressorOk.rank w.comp 0 .finish + 1)
+    (fun _ _ => Nat.lt_succ_self _) (fun _ => Nat.lt_succ_self _) chunks
 
 /-! ### hashing (for ANY block function `f`) -/
 
